@@ -43,6 +43,9 @@ def _gen0(rng, tier):
     for _ in range(G.budget(40) if tier == 'quick' else 1500):     # narrow integer types with runs longer than 127 / 255 frames
         trajs, dtypes, tag = G.narrow_set(rng, 'long-int8')
         yield {'trajs': trajs, 'lag': rng.choice([2, 2, 3, 5, 9]), 'iter': rng.random() < 0.5, 'form': 'loa', 'alpha': tag, 'dtypes': dtypes}
+    for _ in range(G.budget(10) if tier == 'quick' else 150):      # unusual sizes (many trajectories / frames / states, empty members)
+        trajs, tag = G.size_classes(rng, lag=3, sticky=0.9)
+        yield {'trajs': trajs, 'lag': rng.choice([2, 3, 5]), 'iter': rng.random() < 0.5, 'form': rng.choice(['loa', 'obj']), 'alpha': 'size-' + tag}
     for _ in range(G.budget(30) if tier == 'quick' else 1000):     # the same StateTraj object cored repeatedly
         labs, akind = G.alphabet(rng, k=rng.randint(2, 4))
         trajs = [G.traj(rng, labs, rng.randint(8, 40), sticky=0.8) for _ in range(rng.choice([1, 2]))]
@@ -108,7 +111,7 @@ def impl(case):
 
 
 def requests(case):
-    return [[501] + C.enested(case['trajs']) + [case['lag']] + C.ebool(case['iter'])]
+    return [[501 if sum(len(t) for t in case['trajs']) <= 4000 else 503] + C.enested(case['trajs']) + [case['lag']] + C.ebool(case['iter'])]
 
 
 def runs_ok(t, m):
